@@ -93,6 +93,27 @@ def compute(tier, seed):
             for c in g["cases"]:
                 cases[c["id"]] = c
         shards += mshards
+    # C02: the small corpus once more, optimised and without debug assertions / overflow checks
+    rel = {"cases": 0, "events": 0}
+    if os.environ.get("VERIF_NO_RELEASE") != "1":
+        rpl = corpus_rt.build_plan("mini" if tier == "quick" else "miri_thorough", seed)
+        for g in rpl.groups:
+            g["id"] = "r" + g["id"]
+            for c in g["cases"]:
+                c["id"] += 2000000
+                c["label"] = "release:" + c["label"]
+        rcrate = os.path.join(WORK, "rt", "release")
+        rmeta = corpus_rt.write_crate(rpl, rcrate, cases_per_bin=12)
+        rshards, raborts = run_rt.release_run(rcrate, rmeta, os.path.join(rcrate, "traces"), log=log)
+        rel = {"cases": sum(len(b["cases"]) for b in rmeta["bins"]), "events": sum(s_["events"] for s_ in rshards), "aborts": raborts}
+        for b in rmeta["bins"]:
+            b["src"] = os.path.relpath(os.path.join(rcrate, b["src"]), crate)
+            b["script"] = os.path.relpath(os.path.join(rcrate, b["script"]), crate)
+        meta["bins"] += rmeta["bins"]
+        for g in rpl.groups:
+            for c in g["cases"]:
+                cases[c["id"]] = c
+        shards += rshards
     viols, jst = judge.judge_shards(shards, log=log)
     cov = coverage_counts(shards, meta)
     cm = {}
@@ -120,7 +141,7 @@ def compute(tier, seed):
     kinds = collections.Counter(g["kind"] for g in pl.groups for _ in g["cases"])
     return {"tier": tier, "seed": seed, "violations": out, "cases": {str(k): v for k, v in cm.items()},
             "failed": {str(k): v for k, v in failed.items()}, "coverage": cov,
-            "tlc": {"stimuli": pl.stim_stats, "judge": jst}, "aborts": aborts, "miri": miri,
+            "tlc": {"stimuli": pl.stim_stats, "judge": jst}, "aborts": aborts, "miri": miri, "release": rel,
             "n_cases": len(cases), "n_groups": len(pl.groups), "kinds": dict(kinds),
             "events": sum(s["events"] for s in shards), "shards": len(shards), "crate": crate}
 
